@@ -2,6 +2,7 @@ package h
 
 import (
 	"bytes"
+	"crypto"
 	"fmt"
 	"strings"
 
@@ -94,6 +95,94 @@ func Witness(name string) (fails bool, detail string) {
 		}
 		_, err = f.GetDescriptor(sif.WithID(1))
 		return err != nil, fmt.Sprintf("after AddObject on a foreign image (slot 0 free, slot 1 = ID 1): GetDescriptor(WithID(1)) -> %v", err)
+	case "F6", "F9", "F10", "F13":
+		return integWitness(name)
+	}
+	return false, "unknown witness " + name
+}
+
+// integWitness replays the recorded integrity findings against the library.
+func integWitness(name string) (bool, string) {
+	k := LoadKeys("/repo")
+	r := NewRng(7)
+	switch name {
+	case "F6":
+		spec := BaseSpec{Scheme: "dsse", DSSEKeys: []string{"ed25519"}, TwoGroups: true}
+		b := BuildUnsigned(r, true)
+		if err := SignImage(k, b, spec); err != nil {
+			return false, err.Error()
+		}
+		f, err := sif.LoadContainer(b, sif.OptLoadWithCloseOnUnload(false))
+		if err != nil {
+			return false, err.Error()
+		}
+		before := VerifyOnHandle(k, f, VOptsFor(spec))
+		if err := f.DeleteObjects(sif.WithGroupID(2), sif.OptDeleteDeterministic()); err != nil {
+			return false, err.Error()
+		}
+		obs, _ := RunVerify(k, bytes.Clone(b.Bytes()), VOptsFor(spec))
+		return before == nil && obs.Accepted(),
+			fmt.Sprintf("two groups signed (verify: %v); after DeleteObjects(WithGroupID(2)) default verification returns %v", before, obs.VerifyErr)
+	case "F9":
+		b := BuildUnsigned(r, false)
+		img := bytes.Clone(b.Bytes())
+		sig := ClearSign(k, 0, LegacyPlaintext(crypto.SHA384, GroupData(img, 1), true))
+		if err := AddRawSignature(b, sig, 1, 0, crypto.SHA384, k.Entities[0].PrimaryKey.Fingerprint, 0); err != nil {
+			return false, err.Error()
+		}
+		img = bytes.Clone(b.Bytes())
+		vo := VOpts{PGPEntities: []int{0}, Legacy: true}
+		o1, _ := RunVerify(k, img, vo)
+		si, _ := DecodeImage(img)
+		// objects 2 and 3 are adjacent in the file: move the last byte of 2 to the front of 3
+		a, c := si.Descs[1], si.Descs[2]
+		if a.Off+a.Size != c.Off {
+			return false, "objects 2 and 3 are not adjacent"
+		}
+		oa, oc := int(si.H.DescOff)+DescSize, int(si.H.DescOff)+2*DescSize
+		putLE(img, oa+25, 8, uint64(a.Size-1))
+		putLE(img, oc+17, 8, uint64(c.Off-1))
+		putLE(img, oc+25, 8, uint64(c.Size+1))
+		o2, _ := RunVerify(k, img, vo)
+		return o1.Accepted() && o2.Accepted(),
+			fmt.Sprintf("legacy group signature: original verifies (%v); with the last byte of object 2 moved to the front of object 3 it still verifies (%v)", o1.VerifyErr, o2.VerifyErr)
+	case "F10":
+		spec := BaseSpec{Scheme: "dsse", DSSEKeys: []string{"ed25519"}}
+		b := BuildUnsigned(r, false)
+		if err := SignImage(k, b, spec); err != nil {
+			return false, err.Error()
+		}
+		img := bytes.Clone(b.Bytes())
+		si, _ := DecodeImage(img)
+		fp := k.Entities[2].PrimaryKey.Fingerprint
+		for j, d := range si.Descs {
+			if d.Used && d.Type == DataSignature {
+				o := int(si.H.DescOff) + j*DescSize + 201 + 4
+				copy(img[o:o+20], fp)
+			}
+		}
+		obs, _ := RunVerify(k, img, VOpts{DSSEKeys: []string{"ed25519"}, PGPEntities: []int{0, 1, 2}})
+		listed := len(obs.Any) == 1 && bytes.Equal(obs.Any[0], fp)
+		return obs.Accepted() && listed,
+			fmt.Sprintf("DSSE signature by ed25519 with entity 2's fingerprint written into its descriptor: Verify=%v, AnySignedBy=%x", obs.VerifyErr, obs.Any)
+	case "F13":
+		b := BuildUnsigned(r, false)
+		f, err := sif.LoadContainer(b, sif.OptLoadWithCloseOnUnload(false))
+		if err != nil {
+			return false, err.Error()
+		}
+		c1 := SignConfig{Scheme: "dsse", DSSEKeys: []string{"ed25519"}, Objects: [][]uint32{{1}}}
+		c2 := SignConfig{Scheme: "dsse", DSSEKeys: []string{"ed25519"}, Objects: [][]uint32{{2}}}
+		if err := SignOnHandle(k, f, c1); err != nil {
+			return false, err.Error()
+		}
+		e1 := VerifyOnHandle(k, f, c1.VOpts())
+		if err := SignOnHandle(k, f, c2); err != nil {
+			return false, err.Error()
+		}
+		e2 := VerifyOnHandle(k, f, c1.VOpts())
+		return e1 == nil && e2 != nil,
+			fmt.Sprintf("object 1 signed: verify object 1 -> %v; after object 2 of the same group is signed separately: verify object 1 -> %v", e1, e2)
 	}
 	return false, "unknown witness " + name
 }
